@@ -61,7 +61,7 @@ def floors(tier):
         "ops": ["fix_parameter", "release_parameter", "add_parameter_constraint", "add_matrix_parameter_constraint", "set_parameter_values", "do_fit", "member.add_parameter_constraint", "member.add_matrix_parameter_constraint", "multi.add_error.shared", "multi.add_matrix_error.shared", "read.error_band", "read.derivative_by_parameters", "read.eval_model_function", "read.eval_model_function_density", "read.model_property", "read.report"],
         "reach": ["%s:%s" % a for a in ANCHORS],
         "sets": {"type_cost": 25},
-        "strata": ["multi", "unbinned", "hist", "xy", "indexed", "release-after-fix", "fix-again", "constraint-after-fit",
+        "strata": ["multi:member-sources-declared-after-creation", "multi:first-source-of-a-member-declared-after-creation", "multi", "unbinned", "hist", "xy", "indexed", "release-after-fix", "fix-again", "constraint-after-fit",
                    "multi:permuted-order", "multi:shared", "multi:shared+member-constraint", "multi:shared+member-constraint-at-another-index", "multi:shared-after-fix", "multi:member-constraint-before-shared",
                    "multi:member-constraint-after-shared", "multi:shared+do_fit"],
         "distinct_nontrivial": 150,
@@ -243,6 +243,17 @@ def gen_multi(rng, tier, gi, hl):
         if not (stratified and shared_mode) or differs:
             break
     hist = gen_history(rng, names, vals, hl, members=mem)
+    if not shared_mode and ((gi // 5) % 4 == 1 if stratified else rng.random() < 0.4):
+        # one chi2 member is built WITHOUT its uncertainty sources (implicit no-errors cost at the time the multi-fit is created); they
+        # are declared afterwards, through the member or through MultiFit.add_error(fits=<int>): from then on its cost carries ln det V
+        cand = [j for j, mb in enumerate(members) if COST_ALIASES.get(mb["spec"].get("cost")) == "chi2_cov" and mb["spec"]["type"] in ("xy", "indexed") and any(o[0] in ("add_error", "add_matrix_error") for o in mb["setup"])]
+        if cand:
+            j = cand[int(rng.integers(0, len(cand)))]
+            late = [o for o in members[j]["setup"] if o[0] in ("add_error", "add_matrix_error")]
+            members[j]["setup"] = [o for o in members[j]["setup"] if o[0] not in ("add_error", "add_matrix_error", "disable_error", "enable_error")]
+            pos = int(rng.integers(0, min(2, len(hist)) + 1))
+            for k, o in enumerate(late):
+                hist.insert(pos + k, ["member_source", j, o, str(rng.choice(["member", "multi"]))])
     if shared_mode:
         # a constraint on a chi2 member for a parameter that sits at another index in the multi-fit
         if differs and (stratified or rng.random() < 0.5):
@@ -535,7 +546,28 @@ def run_multi(ctx, case):
     for i, op in enumerate(case["history"]):
         k = op[0]
         n0 = sum(ctx._wit_per_key.values())
-        if k == "member":
+        if k == "member_source":
+            mi, sop, via = op[1], op[2], op[3]
+            mb = members[mi]
+            ctx.op("member.%s.after-multi-fit-creation" % sop[0])
+            ctx.stratum("multi:member-sources-declared-after-creation")
+            if len(mb.ref.sources) == 0:
+                ctx.stratum("multi:first-source-of-a-member-declared-after-creation")
+            if via == "multi" and sop[0] == "add_error" and mb.spec["type"] == "xy":
+                a = sop[1]
+                e = a["err"]
+                multi.add_error(err_val=np.array(e, dtype=float) if isinstance(e, list) else e, fits=mi, axis=a["axis"], name=a["name"], correlation=a.get("corr", 0.0), relative=a.get("relative", False), reference=a.get("reference", "data"))
+                from vlib.fitcase import norm_op
+
+                dsl.apply_ref(mb.ref, mb.spec, norm_op(mb.spec, sop))
+            else:
+                from vlib.fitcase import norm_op
+
+                dsl.apply_live(mb.fit, mb.spec, sop)
+                dsl.apply_ref(mb.ref, mb.spec, norm_op(mb.spec, sop))
+            if mb.fid == "chi2_noerr" and mb.ref.sources:
+                mb.fid = mb.ref.fid  # the implicit no-errors chi2 ends with the first declared source (documented behaviour of cost_function="chi2")
+        elif k == "member":
             mi, cop = op[1], op[2]
             ctx.op("member." + cop[0])
             mb = members[mi]
